@@ -10,6 +10,17 @@ CFG = {
         "Leptos.Keyed.C11_storage_is_to",
         "Leptos.Keyed.C11_identity",
         "Leptos.Keyed.C11_set_index",
+        "Leptos.Keyed.C11_identity_nodes_leave",
+        "Leptos.Keyed.C11_dom_order_witness",
+        "Leptos.Keyed.C11_dom_order_partial",
+        "Leptos.Keyed.C11_history",
+        "Leptos.Keyed.C11_history_dom_order_partial",
+        "Leptos.Keyed.rebuild_summary",
+        "Leptos.Keyed.applyDiff_summary",
+        "Leptos.Keyed.rebuild_mounted",
+        "Leptos.Keyed.place_all",
+        "Leptos.Keyed.witnessState_wf",
+        "Leptos.Keyed.witnessState_mounted",
     ],
     "harness_pkg": "hx-c11",
     "harness_bin": "c11",
@@ -21,7 +32,10 @@ CFG = {
             "through leptos <ForEnumerate>); plus n seeded random histories (init + 1..6 ops: reverse/rotate/swap/remove/insert/clear/"
             "front-insert-move/shuffle/replace/append/move-one/random, sib, remount) over alphabets of 3..12 keys, length <= 8, "
             "1..3 nodes per item, 0..2 siblings on each side, a quarter through <ForEnumerate>; distinct = distinct op lines of a case; "
-            "non-trivial = every case (each performs at least one list operation)",
+            "non-trivial = every case (each performs at least one list operation). THOROUGH tier additionally: every ordered pair of "
+            "duplicate-free sequences of length <= 6 over 7 keys (8660^2 = 74 995 600 transitions) is run on the real code inside the "
+            "generator (all cores) and judged by the implementation-side oracle; every transition it rejects (211 680 = 0.282 % on the "
+            "pinned tree) and every 64th other one is written to the ops file and replayed through the model (cases y<i>)",
     "trusted": [
         "hooks/native_dom.patch: tachys::renderer::native_dom (in-memory DOM with insertBefore/remove semantics) standing in for the browser DOM",
         "the harness' Tracked<V> wrapper view (logs unmount calls, records the element ids of built items) and, for <ForEnumerate>, "
@@ -36,9 +50,24 @@ CFG = {
                     "the list is mounted (parent = Some) when it is rebuilt"],
     "manifest": {
         "category": "proof",
-        "text": "",
+        "text": "Lean 4 theorems about an executable model of tachys' keyed diff (diff, group_adjacent_moves, unpack_moves, apply_diff verbatim "
+                "over key lists; rendered_items as a list of optional items; the parent's child list pre ++ item blocks ++ marker :: post with real "
+                "insertBefore/remove semantics; every item a block of >= 1 nodes), for ALL duplicate-free old and new key sequences of any length, any "
+                "siblings before/after the list, any block sizes, and all histories of updates: unpack_moves returns every single move and every add; "
+                "after rebuild rendered_items is exactly the new sequence (no holes, no panic); items whose key is retained are the very same items "
+                "(never rebuilt), new keys are built exactly once with their index, vanished keys are unmounted exactly once and their nodes leave the "
+                "parent; every retained item whose index changed is told its final index exactly once. The full DOM-order statement is REFUTED by a "
+                "kernel-checked witness ([0,1,2] -> [4,3,2,1,0] leaves the children as 1,4,3,2,0: finding F-C11-1, confirmed on the real keyed() and "
+                "<ForEnumerate>); the strongest partial statement is proved instead: the children end as pre ++ blocks of the new sequence ++ marker :: post "
+                "under the decidable hypothesis settledMonotone(from,to) (the items that are neither removed nor re-inserted keep their relative order), "
+                "lifted to histories in which every step satisfies it. Tied to the code by a differential run of the real tachys keyed()/leptos "
+                "<ForEnumerate> on the native in-memory DOM against the compiled model: exhaustively all 1 530 169 transitions between sequences of length "
+                "<= 5 over 6 keys on every run (the hypothesis holds on 99.859 % of them; the other 2160 are exactly the transitions the real code gets "
+                "wrong), 74 995 600 transitions of length <= 6 over 7 keys in the thorough tier (99.718 %), plus seeded random histories.",
         "design_ref": "DESIGN.md §7 C11",
-        "note": "",
+        "note": "model hand-written, faithfulness checked by correspondence (observable: child list with node identity, KeyedState::elements(), "
+                "view_fn / unmount / set_index call logs); the browser DOM is replaced by the native DOM hook; DOM-order theorem partial (known finding F-C11-1); "
+                "reactive_stores keyed fields not covered here",
         "technique": "Lean 4 proof (induction over lists, loop invariants) + kernel-checked refutation witness + differential correspondence on the native DOM",
     },
 }
